@@ -73,7 +73,10 @@ Section Serve.
 Variable C : Type.
 Variable rd : reader C.
 
-(* db.AdditionalSectionForRecords: AAAA picks are appended before A picks *)
+(* db.AdditionalSectionForRecords: the target is looked up under its lower-cased name (owner keys
+   are lower-cased; after 6c0d2c6), the owner of the added records stays as written in the rdata;
+   AAAA picks are appended before A picks.  bytes.ToLower is modelled on A-Z only: targets with
+   bytes above 0x7f are outside the model *)
 Fixpoint additional (recs : list item) (loc : bytes) (qclass : N) (m : msg) (c : C) : res (msg * C) :=
   match recs with
   | [] => Val (m, c)
@@ -84,7 +87,7 @@ Fixpoint additional (recs : list item) (loc : bytes) (qclass : N) (m : msg) (c :
           let want4 := negb (has_record m name 1) in
           let want6 := negb (has_record m name 28) in
           if want4 || want6 then
-            '(w, _, c1) <- rd_rr C rd wrs c name loc (add_cb want4 want6) wrs_empty ;;
+            '(w, _, c1) <- rd_rr C rd wrs c (lower_bytes name) loc (add_cb want4 want6) wrs_empty ;;
             let m' := mkMsg (m_an m) (m_ns m)
                             (m_ex m ++ wrs_items name qclass 1 28 (w6 w) ++ wrs_items name qclass 1 1 (w4 w)) in
             additional t loc qclass m' c1
